@@ -37,6 +37,50 @@ CHECKS = {
    text="P vs P' where one occurrence is abstracted: right-hand literal -> let (file/rule/block/when scope, optional shadowing), left-hand query prefix -> let + %v.rest, block query -> let, unused let (incl. one that would raise an error), clause -> parameterised rule with query or literal argument; rule order of P' shuffled to vary which reference forces the lazy evaluation.",
    note="Exempt as documented: emptiness test on a bare variable; `%v[*]` (no-op on the result set) and filters directly after a variable are not treated as textual substitutions.",
    tech="metamorphic testing (program transformation) over proptest-generated programs", ref="DESIGN.md 5/C15"),
+ "C05": dict(
+   text="Every case runs 5 times as a fresh process of the real binary in 16 modes (validate console/json/yaml/structured json,yaml,junit,sarif/-v/-p; test console/json/yaml/junit; parse-tree json/yaml; rulegen) under varied irrelevant environment (HOME, TZ, LANG, cwd): equal exit status, byte-identical structured output (JUnit time masked), console output identical as a multiset of lines; plus 5 interleaved in-process evaluations.",
+   note="Five runs per mode; an order leak over n>=3 hashed entries escapes a case with probability <= (1/6)^4. NO_COLOR held fixed.",
+   tech="repeated-execution differential testing across fresh processes (hash seeds) on proptest-generated inputs", ref="DESIGN.md 5/C05"),
+ "C06": dict(
+   text="Exit-code oracle computed from facts established through other code paths (parse-tree decides 'parses', run_checks decides each pair's status) for 1-3 rules files x 1-3 data files of 6x5 kinds in 10 invocation modes, in process and through the real binary (main's Err -> 255); test command: rules/spec/expectation kinds x layouts x formats.",
+   note="Template-based file kinds (the fold over files is what is searched, not the clause language).",
+   tech="PBT with a differential oracle (exit code vs independently established per-pair facts)", ref="DESIGN.md 5/C06"),
+ "C08": dict(
+   text="Any panic / abort / signal / hang is a violation: 45 ill-typed parser-accepted program shapes x 29 awkward documents (bounded-exhaustive product), token/byte mutants of generated programs and documents, token soup for every file role, through run_checks, parse-tree, validate (payload in 6 modes, files, stdin, -i) and test; recursion, 48-64-deep nesting and rulegen edge cases through the real binary; rejected rules files must give exit 5 with line/column and no evaluated rule.",
+   note="In-process calls use catch_unwind (panic site = signature); stack-exhausting inputs go through the binary. A watchdog hit on anything but the designated probe of known finding F33 is reported as inconclusive (exit 2). libFuzzer targets under fuzz/ extend this in the thorough tier.",
+   tech="robustness fuzzing: grammar-aware mutation + enumerated hazard product (proptest) with crash/grammar oracles", ref="DESIGN.md 5/C08, 6"),
+ "C10": dict(
+   text="Every {path,value} pair of the structured report resolves in the harness's copy of the document to exactly that value; every unresolved check's reached point is an instance of a prefix of its clause's query with the next segment missing; every Path=..[L,C] of a scalar equals the position recorded by the harness's own JSON/YAML writers (random layout).",
+   note="`to` is judged only when the clause compares with a data query; only scalar positions are judged; remaining_query text is not judged.",
+   tech="invariant checking of generated reports against the generated document and writer-recorded positions (proptest)", ref="DESIGN.md 5/C10"),
+ "C11": dict(
+   text="String-heavy documents written 4 ways x loaded by validate (payload, file), run_checks and test: the dumped loaded document equals the generated one exactly and a generated probe battery passes everywhere; exhaustive tag table (21 tags x 6 payload forms) short form == long form; malformed / non-string-key texts rejected by every loader.",
+   note="Strings are written plain only when YAML 1.1 and 1.2 agree they are strings; aliases and comment-only text are not asserted (not in the statement).",
+   tech="round-trip / differential PBT across writers and loaders + exhaustive tag table", ref="DESIGN.md 5/C11"),
+ "C12": dict(
+   text="Batch (1-3 rules files sharing names x 1-4 documents; explicit lists in two orders, directories -a/-m/default, payload lists) vs every pair validated alone: per-data-file report == union of singleton reports, console output == multiset union, exit 19 iff some singleton FAILs; test cases in one spec file vs one file per case.",
+   note="Batches containing an evaluation error are discarded.",
+   tech="metamorphic testing (batch vs singletons) on proptest-generated inputs", ref="DESIGN.md 5/C12"),
+ "C14": dict(
+   text="Canonical vs variant printing of the same generated AST: per-token synonym choices (17 class/alternative pairs, also enumerated one class at a time) and layout/comments; parse-tree JSON (locations removed, leading This dropped) equal and verdicts equal on two documents; type block vs explicit filter block; bare clauses vs rule default.",
+   note="Only spellings listed by the grammar comment / docs count as synonyms.",
+   tech="metamorphic testing with a choice-stream variant printer (proptest + enumeration of the synonym table)", ref="DESIGN.md 5/C14"),
+ "C16": dict(
+   text="`test` (console, json, yaml, junit; -r/-t and --dir; JSON and YAML spec files) vs the per-rule statuses of run_checks on each input with the met-rule of the statement: met set, unmet entries with expected and evaluated lists, rules without expectation, JUnit marks/counters, exit 0/7.",
+   note="Inputs raising evaluation errors are discarded (C06 judges error exits).",
+   tech="differential PBT (test command vs validate path)", ref="DESIGN.md 5/C16"),
+ "C17": dict(
+   text="Keys of a generated map distributed over data + 1-3 parameter files; every -i order in 4 modes vs the pre-merged document (exit code, verdict sets); deliberately duplicated keys must give an error naming the key and no verdict.",
+   note="Verdicts compared as status sets.",
+   tech="metamorphic testing (split vs merged) on proptest-generated inputs", ref="DESIGN.md 5/C17"),
+ "C18": dict(
+   text="13 functions / composites on generated argument lists (strings of many shapes, numbers, bools, null, lists, unresolved members) in 4 argument forms vs independent implementations; result set read from the report; converters must raise errors on unparsable input; later use of a bound result; the documentation's own examples.",
+   note="Outcomes the documentation does not determine are generated but not asserted; Rust std string functions are trusted base.",
+   tech="PBT against an independent reference implementation", ref="DESIGN.md 5/C18"),
+ "C19": dict(
+   text="rulegen (real binary) on generated templates (JSON / YAML): emitted text parses, one rule per type with properties, all PASS on the source template, and changing any scalar property value makes exactly that type's rule FAIL.",
+   note="Three recorded known findings (F18, F22, F32) are excluded by exact hazard signature.",
+   tech="round-trip PBT (generate -> parse -> validate -> mutate)", ref="DESIGN.md 5/C19"),
 }
 
 ALL = [json.loads(l) for l in open('/verif/properties.jsonl')]
